@@ -213,6 +213,11 @@ func doHistory(full string, ops []string) string {
 }
 
 // CC: G goroutines call Size() and Marshal() on one shared message that nobody mutates (C09, concurrent clause)
+var (
+	ccPrev     interface{}
+	ccPrevWant []byte
+)
+
 func doConcurrent(full string, value []byte, g, iters int) string {
 	m, err := newMessage(full)
 	if err != nil {
@@ -226,6 +231,13 @@ func doConcurrent(full string, value []byte, g, iters int) string {
 		return "skip"
 	}
 	wantB := unhex(want)
+	// every other goroutine works on the message of the PREVIOUS request (usually another Go type, also shared and never
+	// mutated): process-wide state consulted on the Size/Marshal path is then hit by different types at the same time
+	msgs, wants := []interface{}{m}, [][]byte{wantB}
+	if ccPrev != nil {
+		msgs, wants = append(msgs, ccPrev), append(wants, ccPrevWant)
+	}
+	defer func() { ccPrev, ccPrevWant = m, wantB }()
 	bad := make(chan string, g)
 	done := make(chan struct{})
 	for i := 0; i < g; i++ {
@@ -236,8 +248,9 @@ func doConcurrent(full string, value []byte, g, iters int) string {
 				}
 				done <- struct{}{}
 			}()
+			m, wantB := msgs[i%len(msgs)], wants[i%len(msgs)]
 			for k := 0; k < iters; k++ {
-				if (i+k)%2 == 0 {
+				if (i/2+k)%2 == 0 {
 					if n := m.(sizer).Size(); n != len(wantB) {
 						bad <- "size " + strconv.Itoa(n)
 						return
